@@ -28,7 +28,7 @@ from fractions import Fraction
 
 from . import sym, uflmodel, uflsem
 from .ctorlift import CtorHarness
-from .lift import LiftRaise, Obj, Unsupported
+from .lift import LiftRaise, NumTypecodes, Obj, Unsupported
 from .model import ClassInfo, FuncInfo
 from .passlift import PassHarness, node_class, node_operands
 from .uflmodel import MI, node, terminal
@@ -135,7 +135,10 @@ class PipeWorld:
         cm["ReferenceGrad"] = self.reference_grad
         cm["Grad"] = self.grad
         self.H.ref.update({k: cm[k] for k in ("ReferenceValue", "ReferenceGrad", "Grad")})
-        cm["GeometryLoweringApplier"] = self._geometry_lowering_applier
+        # GeometryLoweringApplier is built from its own __init__; a type's typecode is its name and
+        # `[x] * Expr._ufl_num_typecodes_` a table over names
+        ip.class_attrs = dict(getattr(ip, "class_attrs", None) or {})
+        ip.class_attrs[("ufl.core.expr", "Expr", "_ufl_num_typecodes_")] = NumTypecodes(len(ctx.tm.types))
         Form = prog.get_class("ufl.form.Form")
         Integral = prog.get_class("ufl.integral.Integral")
         self._Form, self._Integral = Form, Integral
@@ -315,15 +318,6 @@ class PipeWorld:
         elif cls.is_subclass_of("Transformer"):
             o.attrs["visit"] = lambda x: self.P.tr_visit(x, o)
             o.attrs["_variable_cache"] = {}
-
-    def _geometry_lowering_applier(self, preserve_types=()):
-        names = set()
-        for t in preserve_types:
-            names.add(getattr(t, "name", None) or getattr(getattr(t, "info", None), "name", None) or str(t))
-        K = self.prog.get_class("ufl.algorithms.apply_geometry_lowering.GeometryLoweringApplier")
-        o = Obj("GeometryLoweringApplier", __class__=K)
-        o.attrs["_preserve_types"] = Obj("table", __getitem__=lambda k: (k in names))
-        return o
 
     def dt_call(self, obj, x, **kwargs):
         memo = obj.attrs["__memo"]
